@@ -111,3 +111,27 @@ Example compositions_3 : compositions 3 = [[1; 1; 1]; [1; 2]; [2; 1]; [3]].
 Proof. reflexivity. Qed.
 Example halo_small : map (fun m => halo (fst m) (unit_coords 3) (unit_coords 3)) small_md = [(1, 1); (2, 2); (2, 2)].
 Proof. vm_compute. reflexivity. Qed.
+
+(* ---- the unbounded statement is false for the heuristic: 3x6 grid, x = -4..1, y = 0, 2, 4 (cells 1 x 2), max_distance = sqrt 8
+   (thresholds R = 17, M = 8; halo (1, 3)), row chunks (2, 1), one column chunk (Dask merges (2,4) up to the halo 3):
+   cell (2,4) is NaN on the whole raster but gets the target (1,2) at key 8 in its block - the tie at (1,4) between the
+   candidates (0,4) and (1,2) falls differently when row 0 is outside the window ---- *)
+Definition hw_img : list (list xv) :=
+  [[XFin 1; XFin 6; XFin 0; XFin (-3); XFin 2; XFin 6];
+   [XFin 2; XFin 0; XFin 5; XFin 0; XFin 0; XFin 0];
+   [XFin 7; XFin 4; XFin 0; XFin 0; XFin 0; XFin 0]].
+Definition hw_xc : list (option Z) := map Some [-4; -3; -2; -1; 0; 1].
+Definition hw_yc : list (option Z) := map Some [0; 2; 4].
+Definition hw_md : Q := (6369051672525773 # 2251799813685248)%Q.      (* the double 2.8284271247461903 *)
+Definition cell_at (g : list (list (lpv * option (Z * Z)))) (r c : Z) : lpv * option (Z * Z) :=
+  nthZ (LUnset, None) (nthZ [] g r) c.
+
+Lemma hw_halo : halo hw_md hw_xc hw_yc = (1, 3).
+Proof. vm_compute. reflexivity. Qed.
+Lemma hw_chunked_cell :
+  cell_at (chunked (metric_of_key key_euclid) (fun _ => false) (EFin 17) (EFin 8) hw_xc hw_yc [] hw_img [2; 1] [6] 1 3) 2 4
+  = (LVal (EFin 8), Some (1, 2)).
+Proof. vm_compute. reflexivity. Qed.
+Lemma hw_whole_cell :
+  cell_at (whole (metric_of_key key_euclid) (fun _ => false) (EFin 17) (EFin 8) hw_xc hw_yc [] hw_img) 2 4 = (LUnset, None).
+Proof. vm_compute. reflexivity. Qed.
